@@ -274,6 +274,9 @@ def build():
         else:
             lines = ["class K { void n0_java_deep1k() {"] + ["new Object() { void n%d_java_deep1k() {" % k for k in range(1, N)] + ["int x;"] + ["} };"] * (N - 1) + ["} }"]
         put(cid, lines, lang, steps=12_000_000 if lang == "js" else 23_000_000)
+    put("ts.fnprop", ["const o_ts_fnprop = {function: 1, class: 2};", "let function_ts = o_ts_fnprop.function;",
+                      "class A_ts_fnprop {", "    function(a: number) {", "        return a;", "    }", "    get function2(): number { return 1; }", "}",
+                      "function real_ts_fnprop(x: number) {", "    return x;", "}"], "ts")
     put("ts.iface", ["interface Shape_ts_iface {", "    area(): number;", "    scale(k: number): Shape_ts_iface;", "}", "",
                      "abstract class Base_ts_iface {", "    abstract name(): string;", "    size(): number {", "        return 1;", "    }",
                      "    last(): void;", "}", "declare function ext_ts_iface(a: number): void;"], "ts")
